@@ -271,7 +271,7 @@ func enumerate(c *core.Ctx, digestOnly bool) [][]uint64 {
 }
 
 func run(c *core.Ctx) {
-	c.Rule = "messages = all slot lists of length <=k over (a) the map-entry / extension / unknown-record slots and (b) the thinned full alphabet of each type (generated and dynamicpb). For each: deterministic bytes must be identical across 12 repeated marshals, a Clone, three rebuilds, a decoded copy, EVERY permutation of the insertion/assignment order that cannot change content (<=3! orders), and a second process of the same binary (digest per enumeration index); messages with the same canonical content must have the same bytes; and all messages sharing deterministic bytes must be pairwise proto.Equal. distinct = distinct canonical contents. Maps behind message-typed extensions: a message extension of type TestAllTypes (dynamic extension type over a protodesc-built file, because no linked schema has a map behind a message extension) on TestAllExtensions, holding a generated and a dynamicpb value with every map field filled with 8 entries in two insertion orders, singular and through a group-typed and a repeated message extension of the corpus: the parent's deterministic bytes must be tag + length + the deterministic bytes of the value, 12 times"
+	c.Rule = "messages = all slot lists of length <=k over (a) the map-entry / extension / unknown-record slots and (b) the thinned full alphabet of each type (generated and dynamicpb). For each: deterministic bytes must be identical across 12 repeated marshals, a Clone, three rebuilds, a decoded copy, EVERY permutation of the insertion/assignment order that cannot change content (<=3! orders), and a second process of the same binary (digest per enumeration index); messages with the same canonical content must have the same bytes; and all messages sharing deterministic bytes must be pairwise proto.Equal. distinct = distinct canonical contents. Maps behind message-typed extensions: a message extension of type TestAllTypes (dynamic extension type over a protodesc-built file, because no linked schema has a map behind a message extension) on TestAllExtensions, holding a generated and a dynamicpb value with every map field filled with 8 entries in two insertion orders, singular and through a group-typed and a repeated message extension of the corpus: the parent's deterministic bytes must be tag + length + the deterministic bytes of the value, 12 times. Nested maps: a message with 8-entry maps of every scalar key/value kind is placed behind a singular and a repeated message-typed extension, and below every message-valued position of generated messages (singular field, list element, oneof member, map value): 12 deterministic marshals each must equal the hand-composed bytes"
 	c.Exhaustive = true
 	// second process
 	self, _ := os.Executable()
@@ -445,4 +445,60 @@ func mapsBehindExtensions(c *core.Ctx) {
 		}
 	}
 	c.DistinctN(int64(n))
+	// the same maps below every message-valued position of a generated message:
+	// singular field, list element, oneof member and - the position with a coder of
+	// its own - map value. NestedMessage{corecursive: <message with 8-entry maps>}.
+	n2 := 0
+	for _, tn := range []string{"goproto.proto.test.TestAllTypes", "opaque.goproto.proto.testeditions.TestAllTypes", "goproto.proto.test3.TestAllTypes"} {
+		mt := univ.MT(tn)
+		md := mt.Descriptor()
+		for _, pos := range []string{"optional_nested_message", "singular_nested_message", "repeated_nested_message", "oneof_nested_message", "map_string_nested_message"} {
+			pf := md.Fields().ByName(protoreflect.Name(pos))
+			if pf == nil {
+				continue
+			}
+			for _, reverse := range []bool{false, true} {
+				n2++
+				name := fmt.Sprintf("type=%s position=%s reverse-insertion=%v", tn, pos, reverse)
+				c.Eval(1)
+				c.Guard(func() string { return "maps below a message-valued position " + name }, func() {
+					v := mt.New()
+					fill(v, reverse)
+					want, err := proto.MarshalOptions{Deterministic: true, AllowPartial: true}.Marshal(v.Interface())
+					if err != nil {
+						panic(err)
+					}
+					p := mt.New()
+					var nested protoreflect.Message
+					switch {
+					case pf.IsMap():
+						nested = p.Mutable(pf).Map().Mutable(protoreflect.ValueOfString("k").MapKey()).Message()
+					case pf.IsList():
+						nested = p.Mutable(pf).List().AppendMutable().Message()
+					default:
+						nested = p.Mutable(pf).Message()
+					}
+					cf := nested.Descriptor().Fields().ByName("corecursive")
+					nested.Set(cf, protoreflect.ValueOfMessage(v))
+					nb := protowire.AppendBytes(protowire.AppendTag(nil, cf.Number(), protowire.BytesType), want)
+					var expect []byte
+					if pf.IsMap() {
+						entry := protowire.AppendString(protowire.AppendTag(nil, 1, protowire.BytesType), "k")
+						entry = protowire.AppendBytes(protowire.AppendTag(entry, 2, protowire.BytesType), nb)
+						expect = protowire.AppendBytes(protowire.AppendTag(nil, pf.Number(), protowire.BytesType), entry)
+					} else {
+						expect = protowire.AppendBytes(protowire.AppendTag(nil, pf.Number(), protowire.BytesType), nb)
+					}
+					for r := 0; r < 12; r++ {
+						got, err := proto.MarshalOptions{Deterministic: true, AllowPartial: true}.Marshal(p.Interface())
+						if err != nil || !bytes.Equal(got, expect) {
+							c.Violation("deterministic marshal does not reach maps below a message-valued position: "+name, map[string]any{"err": fmt.Sprint(err), "repeat": r})
+							return
+						}
+					}
+				})
+			}
+		}
+	}
+	c.DistinctN(int64(n2))
 }
